@@ -110,10 +110,16 @@ def gen_cases(rng, tier):
                       "sigma": rng.uniform(0.01, 0.04), "bwf": rng.uniform(0.7, 1.0), "alpha": 10 ** rng.uniform(-3, 3), "beta": 0.0,
                       "spsr": 128, "seed": rng.getrandbits(31)})
     # call histories: grids of the same total size, different samples per slot (8192 = 256 slots x 32 = 64 slots x 128 = 128 x 64 ...)
-    hist = [(32, 64, [{"nsl": 256, "spsr": None}]), (16, 64, [{"nsl": 512, "spsr": None}, {"nsl": 128, "spsr": 64}]),
-            (8, 128, [{"nsl": 64, "spsr": 256}, {"nsl": 256, "spsr": 64}]), (32, 128, [{"nsl": 512, "spsr": None}])]
-    if tier != "quick":
-        hist = hist * 3 + [(8, 64, [{"nsl": 1024, "spsr": None}])]
+    # (the main record gets an even slot count no other case uses, so that ITS grid size is met for the first time by the earlier
+    # call of its own history: nsl*128 samples = (nsl*128/sps) slots without resampling = 2*nsl slots at 64 = nsl/2 slots at 256)
+    hist = []
+    pool = [72, 80, 88, 96, 104, 112, 120, 144, 160]
+    rng.shuffle(pool)
+    for j, nsl in enumerate(pool[:4] if tier == "quick" else pool):
+        sps = [32, 16, 8, 32][j % 4]
+        pre = [[{"nsl": nsl * 128 // sps, "spsr": None}], [{"nsl": 2 * nsl, "spsr": 64}], [{"nsl": nsl // 2, "spsr": 256}, {"nsl": nsl * 128 // sps, "spsr": None}],
+               [{"nsl": nsl * 128 // sps, "spsr": None}]][j % 4]
+        hist.append((sps, nsl, pre))
     for sps, nsl, pre in hist:
         d = 10 ** rng.uniform(-3, 2)
         cases.append({"kind": "eye", "sps": sps, "nsl": nsl, "pattern": rng.choice(["random", "prbs"]), "a": rng.choice([0.0, -d / 2, 2 * d]), "d": d,
